@@ -759,7 +759,14 @@ func (c *cenv) field(x Val, name string) Val {
 		for _, pi := range path {
 			loc = lfield(loc, pi)
 		}
-		return fv.load(c.st, loc, ft)
+		lv := fv.load(c.st, loc, ft)
+		if len(path) == 1 && fv.boundDepth == 0 {
+			if fi := fv.eng.fieldInvs[fmt.Sprintf("%s#%d", canonType(t), path[0])]; fi != nil {
+				ce := &cenv{fv: fv, vars: map[string]Val{"v": lv}, st: c.st, pkg: fv.eng.tpkgs[fi.PkgPath], allocOld: c.allocOld, where: "fieldinv"}
+				fv.assume(c.st.reach, ce.evalAssume(c.st.reach, fi.Clause.Expr))
+			}
+		}
+		return lv
 	}
 	v := x
 	for _, pi := range path {
